@@ -20,7 +20,7 @@ ALT = {
     "second": ["minute", "hour", "millisecond", "microsecond"],
 }
 PREFIXES = ["kilo", "milli", "micro", "mega", "nano", "centi"]
-RANGES = [(1e-6, 1e6), (1e-3, 1e3), (0.1, 10.0), (0.5, 2.0)]
+RANGES = [(1e-6, 1e6), (1e-3, 1e3), (0.1, 10.0), (0.5, 2.0), (1e-18, 1e-16)]
 
 
 def si_float(x) -> float | complex:
@@ -65,6 +65,21 @@ def _is_angle(dim) -> bool:
         return False
     deps = dimsys_SI.get_dimensional_dependencies(dim)
     return len(deps) == 1 and str(next(iter(deps))) == "angle"
+
+
+def make_quantity_exact(rng, dim, si_value):
+    """Exact variant: `si_value` is a sympy Rational; the quantity is written in a random unit with an exact number."""
+    from symplyphysics import Quantity, convert_to_si  # pylint: disable=import-outside-toplevel
+    if _is_angle(dim):
+        q = Quantity(si_value * U.radian)
+        return q, sympy.nsimplify(convert_to_si(q)), "radian"
+    unit, desc = random_unit(rng, dim)
+    scale = sympy.nsimplify(convert_to_si(Quantity(unit)))
+    if not scale.is_Rational:
+        from symplyphysics.core.dimensions import dimension_to_si_unit  # pylint: disable=import-outside-toplevel
+        unit, desc, scale = dimension_to_si_unit(dim), "SI", sympy.S.One
+    q = Quantity((si_value / scale) * unit)
+    return q, sympy.nsimplify(convert_to_si(q)), desc + "(exact)"
 
 
 def make_quantity(rng, dim, si_value, plain_ok=False):
@@ -141,13 +156,25 @@ def leaf_plan(ex, override=None):
     return plan
 
 
-def _draw_leaf(sym, plan, rng, lo, hi, small):
+def _draw_leaf(sym, plan, rng, lo, hi, small, exact=False):
     from symplyphysics import Quantity  # pylint: disable=import-outside-toplevel
     dim, how, _g = plan[sym]
+    if exact and how != "int":
+        sign = -1 if (_sign_ok(sym) and rng.random() < 0.3) else 1
+        m = sympy.Rational(str(float(f"{draw_magnitude(rng, lo, hi, False):.4g}"))) * sign
+        if _is_angle(dim):
+            m = sympy.Rational(rng.randint(1, 150), 100) * sign
+        if sym.is_integer:
+            m = sympy.Integer(rng.randint(1, 6))
+        if how == "number" or (how == "either" and rng.random() < 0.5):
+            return m, m, "number(exact)"
+        if dim is None or _dimless(dim):
+            return Quantity(m), m, "dimensionless(exact)"
+        return make_quantity_exact(rng, dim, m)
     sign = -1 if (_sign_ok(sym) and rng.random() < 0.3) else 1
     if how == "int":
         v = rng.randint(1, 6)
-        return v, float(v), "int"
+        return v, v, "int"
     if _is_angle(dim):
         m = float(f"{rng.uniform(0.02, 1.5):.6g}") * sign
     elif small:
@@ -155,7 +182,11 @@ def _draw_leaf(sym, plan, rng, lo, hi, small):
     else:
         m = draw_magnitude(rng, lo, hi, False) * sign
     if sym.is_integer:
-        m = float(rng.randint(1, 6))
+        m = rng.randint(1, 6)
+    from . import c02_extract as X  # pylint: disable=import-outside-toplevel
+    if "Rational" in X._LEAF.get(sym.name, ""):  # pylint: disable=protected-access
+        r = sympy.Rational(rng.randint(11, 30), 10)
+        return r, float(r), "rational"
     if how == "number" or (how == "either" and rng.random() < 0.5):
         return m, m, "number"
     if dim is None or _dimless(dim):
@@ -164,7 +195,7 @@ def _draw_leaf(sym, plan, rng, lo, hi, small):
     return make_quantity(rng, dim, m)
 
 
-def draw_call(ex, rng, lo, hi, small_ints=False, plan=None):
+def draw_call(ex, rng, lo, hi, small_ints=False, plan=None, exact=False):
     from symplyphysics.core.vectors.vectors import QuantityVector  # pylint: disable=import-outside-toplevel
     from symplyphysics import Quantity  # pylint: disable=import-outside-toplevel
     plan = plan or leaf_plan(ex)
@@ -174,7 +205,7 @@ def draw_call(ex, rng, lo, hi, small_ints=False, plan=None):
         if isinstance(v, SVec):
             qs = []
             for s in v.components:
-                obj, si, how = _draw_leaf(s, plan, rng, lo, hi, small_ints)
+                obj, si, how = _draw_leaf(s, plan, rng, lo, hi, small_ints, exact)
                 if not isinstance(obj, SymQuantity):
                     obj = Quantity(obj)
                 env[s] = si
@@ -184,7 +215,7 @@ def draw_call(ex, rng, lo, hi, small_ints=False, plan=None):
         if isinstance(v, (list, tuple)):
             out = [walk(x, d) for x in v]
             return tuple(out) if isinstance(v, tuple) else out
-        obj, si, how = _draw_leaf(v, plan, rng, lo, hi, small_ints)
+        obj, si, how = _draw_leaf(v, plan, rng, lo, hi, small_ints, exact)
         env[v] = si
         d.append(how)
         return obj
@@ -230,7 +261,7 @@ def numeric(expr, env, prec=30):
     """Evaluate a closed form at SI values (constants at their SI values)."""
     from symplyphysics import convert_to_si  # pylint: disable=import-outside-toplevel
     e = sympy.sympify(expr)
-    rep = {s: sympy.Float(v, prec) if not isinstance(v, complex) else sympy.sympify(v) for s, v in env.items()}
+    rep = {s: sympy.Float(v, prec) if isinstance(v, float) else sympy.sympify(v) for s, v in env.items()}
     for q in e.atoms(SymQuantity):
         rep[q] = sympy.N(convert_to_si(q), prec)
     e = e.xreplace(rep)
@@ -302,7 +333,7 @@ def cancellation(expr, env) -> float:
 def conds_hold(conds, env) -> bool:
     for c in conds:
         try:
-            v = c.xreplace({s: sympy.Float(x) for s, x in env.items()})
+            v = c.xreplace({s: (sympy.Float(x) if isinstance(x, float) else sympy.sympify(x)) for s, x in env.items()})
             for q in v.atoms(SymQuantity):
                 from symplyphysics import convert_to_si  # pylint: disable=import-outside-toplevel
                 v = v.xreplace({q: sympy.N(convert_to_si(q))})
